@@ -35,7 +35,8 @@ pub struct C04;
 
 fn cfg() -> AspCfg {
     AspCfg {
-        preds: vec![("p".into(), 1), ("q".into(), 1), ("r".into(), 2), ("s".into(), 0), ("d".into(), 1)],
+        // one name at two arities: completion, tightness and the reference are all keyed by (name, arity)
+        preds: vec![("p".into(), 1), ("p".into(), 2), ("q".into(), 1), ("q".into(), 0), ("r".into(), 2), ("s".into(), 0), ("d".into(), 1)],
         vars: vec!["X".into(), "Y".into(), "V1".into(), "Z".into()],
         syms: vec!["a".into()],
         num_lo: -1,
@@ -77,7 +78,7 @@ impl Check for C04 {
         (
             ga::shaped_program(&c, 1),
             any::<u8>(),
-            g::raw_interp(5, 0, 2, 4),
+            g::raw_interp(7, 0, 2, 4),
             prop_oneof![1 => Just(0u8), 2 => 1u8..8],
             any::<u16>(),
         )
